@@ -486,7 +486,9 @@ ChooseVariant ==
                \E rem \in SmallSubsets(RegSites, MaxRemove) : \E add \in AddChoices :
                    /\ rem # {} \/ add # <<>>
                    /\ Cardinality(rem) < Cardinality(RegSites)
-                   /\ VariantHash(rem, add) % IrrMod = IrrRes
+                   \* a sample of the variants, and always the one with just the first site removed
+                   /\ \/ VariantHash(rem, add) % IrrMod = IrrRes
+                      \/ (add = <<>> /\ rem = {Zero(D + 1)})
                    /\ cfg' = [cfg EXCEPT !.removed = SetToSeq(rem), !.added = add]
          [] cfg.cls = "Helical" ->
                \E hc \in 1..ProdSeq(Ls) : ProdSeq(Ls) % hc = 0 /\ cfg' = [cfg EXCEPT !.hcells = hc]
